@@ -2,6 +2,7 @@
 From HTA.lib Require Import Base.
 From HTA.model Require Import C15_Model.
 From HTA.proof Require Import C15_Proofs.
+From HTA.proof Require Import Scale C15_Scale.
 
 (* one row per linked (launch call, device activity) pair, no other row, none twice *)
 Theorem C15_rows_bijection : forall mem l, NoDup l -> wf_launch l ->
@@ -31,3 +32,9 @@ Definition ex15 : list ev :=
 Example C15_nonvacuous :
   model_C15 true ex15 = [[10; 3; 4; 5]; [11; 1; 0; 0]] /\ model_C15 false ex15 = [[10; 3; 4; 5]].
 Proof. vm_compute. split; reflexivity. Qed.
+
+(* resolution independence: times multiplied by k >= 0 multiply the two durations and the delay of every row by k; same rows *)
+Theorem C15_resolution_independent : forall k mem l, 0 <= k ->
+  model_C15 mem (scale_evs k l) = map (scale_row15 k) (model_C15 mem l).
+Proof. exact C15_scale. Qed.
+Print Assumptions C15_resolution_independent.
